@@ -26,7 +26,7 @@ from rtlmc.explore import Spec
 
 PROPERTY = "C29"
 TECHNIQUE = "per-cycle closure; inner byte endpoint replaced by the environment at the USBStreamInEndpoint seam"
-SLACK = 3
+SLACK = 8          # generous progress window (cycles); the statement fixes no latency
 
 WORD_BYTES = [(0x11, 0x22, 0x33, 0x44, 0x55, 0x66, 0x77, 0x88), (0xA5, 0x5A, 0xC3, 0x3C, 0x96, 0x69, 0xF0, 0x0F),
               (0x80, 0x01, 0x7F, 0xFE, 0x00, 0xFF, 0x10, 0x08)]
@@ -117,8 +117,10 @@ class MultibyteSpec(Spec):
                 f"progress is demanded within {SLACK} cycles, no exact latency"]
 
     def goals(self):
-        g = ["word-accepted", "byte-stalled", "word-back-pressured", "first-word", "last-word", "back-to-back-accept", "idle-gap"]
-        return g
+        # only situations every conforming implementation must reach under this environment.  "back-to-back-accept"
+        # (a word accepted while bytes of its predecessor are still pending) is counted but not required: the
+        # statement does not ask for a gap-free hand-over, an endpoint may return to idle between words.
+        return ["word-accepted", "byte-stalled", "word-back-pressured", "first-word", "last-word", "idle-gap"]
 
     def _bytes_of(self, k, f, l):
         bs = self.words[k]
